@@ -68,6 +68,7 @@ MonInitVal ==
     susInst |-> {},              \* C31: installed suspenders ("s1" watches signal "sig1", "s2" watches "sig2": SuspendBoolHigh)
     sigHigh |-> {},              \* signals whose last value is high
     susUsed |-> FALSE,           \* suspenders are in play in this trace
+    suspEver |-> FALSE,          \* a suspension has been in effect during this call (_start_suspender was executed)
     trips |-> 0,                 \* trips of installed suspenders not yet turned into a suspension
     susEff |-> {},               \* installed suspenders whose condition tripped while the engine could be suspended / was idle
     pendingSpan |-> 0,           \* C42: span started by the open_run in progress
@@ -255,7 +256,7 @@ UpdMsg(m0, e) ==
              THEN ViolIf([m4p EXCEPT !.trips = IF @ > 0 THEN @ - 1 ELSE 0], m4p.trips = 0, "C31:suspended-without-tripped-suspender")
              ELSE m4p
       m5 == IF cmd = "_start_suspender"
-            THEN [m4s EXCEPT !.suspStopDue = m4.movedEver,
+            THEN [m4s EXCEPT !.suspEver = TRUE, !.suspStopDue = m4.movedEver,
                             !.runs = [o \in 1..MaxRuns |-> IF m4.runs[o].started /\ m4.runs[o].stopped = 0 /\ m4.recIntr
                                                             THEN [m4.runs[o] EXCEPT !.intrWant = @ + 1] ELSE m4.runs[o]]]
             ELSE m4s
@@ -288,7 +289,10 @@ UpdGen(mIn, e) ==
       \* (an abort/stop/halt ends the suspension: the plan's clean-up then runs although nothing released the suspender)
       m8a == ViolIf(m7, m7.suspWait /\ inp = "send" /\ m7.term = {} /\ m7.termLate = {}, "C11:plan-resumed-during-suspension")
       \* C31 / C11: the plan does not run while an installed suspender's condition is tripped
-      m8 == ViolIf(m8a, inp = "send" /\ m8a.susEff # {} /\ m8a.term = {} /\ ~m8a.failedPause,
+      \* (C11 speaks about a suspension that is in effect: its clause needs one to have started in this call; a suspender
+      \*  whose trip never led to a suspension at all is C31's "gates plan start")
+      m8 == ViolIf(m8a, inp = "send" /\ m8a.susEff # {} /\ m8a.term = {} /\ ~m8a.failedPause
+                        /\ (m8a.planMsg.cmd = "" \/ m8a.suspEver),
                    IF m8a.planMsg.cmd = "" THEN "C31:plan-started-while-suspender-tripped" ELSE "C11:plan-ran-while-suspender-tripped")
       m9 == IF react = "yield" THEN [m8 EXCEPT !.genYielded = TRUE, !.planMsg = [cmd |-> "?", obj |-> "", run |-> ""]]
             ELSE IF react = "return" THEN [m8 EXCEPT !.planDone = TRUE]
@@ -458,7 +462,7 @@ UpdCall(m, e, s) ==
                                !.keyOrd = [k \in RunKeys |-> 0],
                                !.term = {}, !.termLate = {}, !.failedPause = FALSE, !.callRuns = m.nruns, !.deferPending = FALSE,
                                !.deferCkpt = FALSE, !.since = <<>>, !.expect = <<>>, !.replaying = FALSE, !.ckpt = TRUE,
-                               !.susp = {}, !.suspWait = FALSE, !.pausedNow = FALSE, !.faulty = FALSE, !.lastCmd = "", !.reqs = <<>>,
+                               !.susp = {}, !.suspWait = FALSE, !.suspEver = FALSE, !.pausedNow = FALSE, !.faulty = FALSE, !.lastCmd = "", !.reqs = <<>>,
                                !.planDone = FALSE,
                                !.dev = [d \in Devices |-> [@[d] EXCEPT !.lost = 0]]]
   ELSE LET rec == [kind |-> "call:" \o op, pc |-> Where(m), st |-> m.st, res |-> m.ckpt, out |-> "", after |-> m.lastCmd]
